@@ -33,4 +33,100 @@ CHECKS["C18"] = {
   "technique": "Coq proof over R about source-translated definitions (translator tie) + exact evaluation of the translated IR vs the code + float oracle vs high-precision reference",
 }
 
+CHECKS["C01"] = {
+  "text": "Machine-checked theorems (coq/props/C01.v) that the reservoir model obeys, component by component and for every dimension, weight matrix, input, feedback value, start state, "
+          "activation function and scalar or per-unit leak rate, the documented law with zero noise gains: internal x' = (1-lr)x + lr f(W x + Win u + b [+ Wfb g(y)]); external s' = (1-lr)s + lr(W x + ...), "
+          "x' = f(s'); at every step of a run by induction over the input list; scalar lr = constant vector; Win with a bias column = split (bias, Win'); run(xs++ys) = run ys after run xs; noise draws "
+          "irrelevant at gain 0. The model is tied to the code on every run by executing both on seeded scenarios (dense/csr/csc W, seeded initialisers read back, bias on/off/in Win, both equations, "
+          "exact and named activations via a recorded table, feedback stand-alone and inside a Model, from_state) and comparing inside Coq; a numpy oracle recomputes each step from the node's matrices.",
+  "note": "Trusted: Coq kernel; the hand-written model coq/model/Reservoir.v as a rendering of nodes/reservoirs/base.py (tie is correspondence only); the harness; named activations treated as "
+          "uninterpreted functions (their values are C18); float64 within 1e-9 of exact on small dyadic data. Not decided: float rounding, the random initialisers themselves (C13/C14), feedback timing (C05).",
+  "technique": "Coq proof (list induction, index-level sums) about an executable Gallina model polymorphic over a Num class (R for theorems, Q for vm_compute execution) + model-vs-code correspondence + implementation oracle",
+}
+CHECKS["C15"] = {
+  "text": "Machine-checked theorems (coq/props/C15.v) on the same model as C01: for every element-wise 1-Lipschitz activation, scalar leak rate a in [0,1], W with |Wv| <= sigma|v|, and all Win, bias, "
+          "feedback, inputs and pairs of states, one internal step contracts the 2-norm distance by (1-a)+a*sigma (Cauchy-Schwarz), t steps by its t-th power, the factor is < 1 when sigma < 1 and a > 0, "
+          "and the initial state is forgotten (below any eps after N steps uniformly in the inputs); activations with values in [-1,1] and lr in [0,1] (scalar or per-unit) keep [-1,1]^n invariant for every "
+          "input; tanh (stdlib sinh/cosh, MVT), relu, identity and hard-tanh are proved to satisfy the hypotheses; the Frobenius norm is proved to bound sigma. Each run executes pairs of real Reservoir "
+          "trajectories, has Coq confirm model = observed, certify sigma and check the inequality exactly at Q; an oracle checks the inequality at every step on SVD-rescaled reservoirs with "
+          "tanh/relu/identity and inputs up to 1e6.",
+  "note": "Contraction is proved for the 'internal' equation with a scalar leak rate (what the property states). Trusted: as C01, plus numpy SVD in the oracle only; the oracle's slack models float64 rounding of the pre-activation.",
+  "technique": "Coq proof over R (finite sums, Cauchy-Schwarz, stdlib MVT for tanh) + exact rational evaluation of the same model on real trajectories",
+}
+CHECKS["C19"] = {
+  "text": "Machine-checked theorems (coq/props/C19.v) about an executable model of observables.py: mse is (1/n)Sum(y-yhat)^2 for every length; rmse^2 = mse; R^2 is 1 for a perfect prediction and 0 for the "
+          "mean predictor (SS_tot != 0 explicit) and invariant under common affine maps; mse/rmse scale by a^2/|a|; nrmse is affine-invariant for minmax and q1q3 (sorting commutes with positive affine maps), "
+          "divides by a for norm=var (a variance, not a standard deviation), and equals a*rmse/(a*mean+b) for norm=mean; dimensionwise results on 2-D/3-D arrays equal the 1-D metric of every feature column; "
+          "all metrics reject different shapes; effective_spectral_radius takes the radius of lr*W+(1-lr)*I entrywise. The model is run at Q against the real functions on seeded 1-D/2-D/3-D arrays (all norms, "
+          "dimensionwise on/off, zero denominators <=> non-finite result) on every run; an oracle recomputes the formulas with fractions and compares sparse/dense/eigvals spectral radii on structured matrices.",
+  "note": "Trusted: Coq kernel + Reals axioms, model coq/model/Metrics.v as a rendering of observables.py, harness tools/props/c19.py, float64 accuracy on small dyadic inputs (1e-9). sqrt is Coq's Reals sqrt applied "
+          "to the model mse; rmse/nrmse are tied through squares plus sign. Spectral radius (ARPACK/LAPACK/eigvals agreement, 'largest eigenvalue modulus') is NOT proved: oracle only, tol 1e-6, |rho|<1e-3 counts as 0, "
+          "n <= 40. memory_capacity is outside the property.",
+  "technique": "Coq proof (list induction, field/lra over R) about an executable Gallina model + model-vs-code correspondence by vm_compute + direct implementation oracle",
+}
+CHECKS["C05"] = {
+  "text": "Machine-checked theorems (coq/props/C05.v, closed under the global context) about the executable model of state proxies / DistantFeedback / with_feedback / dispatch: the value handed to a receiver "
+          "is read from the environment frozen before the step's first node is called - the sender's state at the end of step k-1 at step k of a run (pre-existing state at k = 0), for node and "
+          "(in-sync) sub-model senders wherever they sit; a forced value replaces it; with shifting the forced value is zero at step 0 and Y[t] at step t+1, Y[t] without. The decisive part is the tie: "
+          "seeded feedback topologies (sender downstream / upstream / outside the graph / sub-model upstream / sub-model downstream / reservoir<-readout) with forced feedback keyed by sender or receiver "
+          "are run on the real library and on the model and compared inside Coq; an oracle recovers the feedback each receiver actually saw (out = x + 100 fb) and checks the timing, fit and train forcing.",
+  "note": "Trusted: Coq kernel; ModelSem.v as a rendering of model.py/_base.py proxies and DistantFeedback (the model freezes feedback per step by construction, so the timing theorems are close to definitional: "
+          "the assurance is the correspondence); sub-model senders straddling the receiver or partly outside the model, and the use of targets as forced feedback in fit/train, are decided by the oracle only (partial).",
+  "technique": "Coq proof about an executable Gallina state machine + model-vs-code correspondence by vm_compute + feedback-recovering implementation oracle",
+}
+CHECKS["C07"] = {
+  "text": "Machine-checked theorems (coq/props/C07.v, closed under the global context): for every model (a node is a one-node model), any node forward functions, feedback loops and hidden memory "
+          "included, run(xs ++ ys) = run ys after run xs with concatenated outputs, hence any cutting into consecutive chunks (single-step calls included) gives the same outputs and final environment; "
+          "online training as a fold with the learn_every gate restarting at each call is compositional when the cut is a multiple of learn_every (and a counter-example shows the hypothesis is needed). "
+          "Tie: sequences cut at random points are executed piece by piece on the real library and on the model and compared inside Coq; an oracle compares whole vs chunked runs on two copies of the real "
+          "objects (outputs, final states, continuation), the ESN node, and RLS/LMS nodes and a reservoir>>RLS model trained in chunks.",
+  "note": "Trusted: Coq kernel; ModelSem.v/Kinds.v as renderings of the code; online learning rules themselves are C10's model - here the training half is the generic fold law plus the implementation oracle (partial).",
+  "technique": "Coq proof (induction over the step list / chunk list) about an executable Gallina state machine + model-vs-code correspondence by vm_compute",
+}
+CHECKS["C08"] = {
+  "text": "Machine-checked theorems (coq/props/C08.v): in the model of Node/Model.with_state, run and call, a stateful=False operation with any reset/from_state leaves the current state of every node "
+          "unchanged whether it completes or a forward function raises part-way; it is repeatable when no hidden memory changed; reset gives every node the zero state of its dimension and leaves hidden "
+          "memory alone; from_state/reset start the operation from exactly the given states; and C08_hidden_memory_refuted exhibits (Delay) that hidden memory breaks repeatability and freshness - the open "
+          "known findings hidden-memory:*. Tie: histories of run/call/reset with every flag combination, 30% with a node raising at its k-th call, compared op by op (success flag, outputs, all states) inside Coq; "
+          "an oracle checks state preservation (also on failure), repeatability, reset = fresh copy, from_state = state set first, on the real objects.",
+  "note": "Trusted: Coq kernel; functional_extensionality_dep (stdlib) in C08_stateless_repeatable; ModelSem.v as a rendering of with_state/reset (after the try/finally repair c89bff1). Hidden memory is mirrored, not repaired.",
+  "technique": "Coq proof (frame lemmas over the execution order, fold invariants) about an executable Gallina state machine with failure + model-vs-code correspondence by vm_compute",
+}
+
+CHECKS["C04"] = {
+  "text": "Machine-checked theorems (coq/props/C04.v; only the standard Reals axioms) about an executable model of Ridge.fit: for any list of sequences, any warm-up, dimensions, bias on/off, the accumulators are the "
+          "Gram sums over the retained rows; any parameters satisfying (XXT+lambda I)W=YXT^T are, for lambda>0, the unique minimiser of Sum_retained|W^T x+b-y|^2+lambda(|W|^2+|b|^2) (per output coordinate and in total); "
+          "XXT+lambda I has a trivial kernel, so under the stated LAPACK oracle the fitted Wout/bias satisfy the normal equations and are that minimiser; prediction is Wout^T x+bias; the first `warmup` rows of every "
+          "sequence do not influence the result. Each run ties the model to the code on seeded datasets (2-D, 3-D, ragged) by comparing Wout, bias and predictions and re-checking the normal equations on the observed "
+          "parameters; an exact-rational oracle checks residual, perturbation optimality, warm-up independence and affinity on the real node.",
+  "note": "Trusted: Coq kernel; hand-written model coq/model/Ridge.v as a rendering of ridge.py / readouts/base.py / Node.partial_fit / add_bias; scipy.linalg.solve as Section Variable + hypothesis solve_spec (used only by "
+          "C04_normal_equations / C04_optimal / C04_optimal_total / C04_unique; the core optimality theorems and the per-run normal-equation check on observed values do not use it); float64 rounding within 1e-9 "
+          "(lambda >= 1/8, small dyadic data); fresh node per fit, single process.",
+  "technique": "Coq proof (index-level finite-sum algebra for the ridge gap identity + list-level bridge by induction over sequences/rows) about an executable Gallina model; model-vs-code correspondence by vm_compute over Q with Gauss-Jordan; exact-rational implementation oracle",
+}
+CHECKS["C10"] = {
+  "text": "Machine-checked theorems (coq/props/C10.v): RLS from zero weights equals the ridge(lambda=alpha) solution on the samples selected by learn_every and P is the inverse regularised covariance (denominators proved "
+          "positive from a PSD invariant, for any list of successive train calls); LMS performs w - alpha_k(yhat-y)x~^T with the schedule consumed once per update, never on skipped steps; the train loop updates exactly on "
+          "i mod learn_every = 0 and returns pre-update predictions; IP applies the documented tanh/sigmoid gradient step once per timestep, sequence, epoch, in that order. The model is run at Q against real RLS/LMS/FORCE/"
+          "IPReservoir nodes on every run; an exact-Fraction ridge / explicit-loop oracle checks the real nodes directly.",
+  "note": "Model hand-written (not translated); FORCE covered by correspondence only; IP activation values are recorded from the run (tanh/exp not evaluated in Coq; y=f(a x+b) checked by the Python oracle); default zero "
+          "initial weights; noise gains 0; RLS alpha in [1/4, 4] and LMS rates <= 1/8 in scenarios. Trusted: Coq kernel + Reals axioms, coq/model/Online.v, harness tools/props/c10.py.",
+  "technique": "Coq proof over R (Sherman-Morrison + normal equations at index level on BSum, PSD invariant for the denominators; list induction for loop/gate/cursor/IP order) + Q-executed model vs real nodes (1e-9) + exact Fraction ridge / explicit-loop oracle",
+}
+CHECKS["C14"] = {
+  "text": "Machine-checked theorems (coq/props/C14.v, closed under the global context) about a provenance semantics of reservoirpy's seed plumbing "
+          "(set_seed, rand_generator, noise, Reservoir.__init__/initialize/initialize_feedback, mackey_glass/narma default seed, ScikitLearnNode "
+          "random_state): with an integer seed the provenance of W, Win, bias, Wfb and of every noise draw of a reservoir is the same for any two "
+          "program states and any two histories that interleave its own operations with arbitrary other ones (non-interference, induction over "
+          "histories); after set_seed(s) every array of any script is a function of s and the script; gain 0 consumes no draw and yields the noiseless "
+          "trajectory term; every component of a seeded reservoir is rooted in its seed; different seeds give different terms. The model is tied to the "
+          "code relationally on every run: random histories are executed on the real library, every produced array is SHA-256-hashed, and Coq checks "
+          "for all pairs that equal provenance implies equal bytes and different seeds imply different bytes; an independent oracle compares bytes directly.",
+  "note": "Trusted: Coq kernel; numpy/scipy/sklearn determinism (the value of a draw is a function of root seed, requests already served, request: "
+          "Section hypothesis np_value); negligible collision between different seeds for rich draws; coq/model/Prov.v as a rendering of utils/random.py, "
+          "mat_gen.py, reservoirs/base.py+reservoir.py, datasets/_chaos.py, sklearn_node.py; harness tools/props/c14.py. ARPACK non-convergence retries "
+          "(re-draw) are out of scope. The theorem is about information flow, not numeric values (partial by nature).",
+  "technique": "Coq proof (non-interference by induction over operation histories on a provenance semantics) + relational model-vs-code correspondence by vm_compute on hashed arrays",
+}
+
 NOT_YET = {}
